@@ -30,6 +30,9 @@ struct Args {
     verif: PathBuf,
     only_sub: Option<String>,
     no_dev: bool,
+    /// worker mode: evaluate every case in a forked child (second attempt after a
+    /// worker died of a signal: finds the case that kills the process)
+    isolate: bool,
 }
 
 fn parse_args() -> Args {
@@ -48,6 +51,7 @@ fn parse_args() -> Args {
         verif: PathBuf::from(std::env::var("VERIF_DIR").unwrap_or_else(|_| "/verif".into())),
         only_sub: None,
         no_dev: false,
+        isolate: false,
     };
     let mut it = std::env::args().skip(1);
     while let Some(x) = it.next() {
@@ -71,6 +75,7 @@ fn parse_args() -> Args {
             "--verif" => a.verif = PathBuf::from(it.next().unwrap()),
             "--sub" => a.only_sub = it.next(),
             "--no-dev" => a.no_dev = true,
+            "--isolate" => a.isolate = true,
             s if !s.starts_with('-') && a.id.is_empty() => a.id = s.to_string(),
             s => {
                 eprintln!("unknown argument {s}");
@@ -110,7 +115,7 @@ fn main() {
 // worker
 
 fn worker(args: &Args, k: u32, n: u32) {
-    let ctx = Ctx { id: args.id.clone(), tier: args.tier, seed: args.seed, worker: k, workers: n };
+    let ctx = Ctx { id: args.id.clone(), tier: args.tier, seed: args.seed, worker: k, workers: n, isolate: args.isolate };
     let subs = checks::subs(&args.id);
     let mut out = Vec::new();
     for s in subs {
@@ -326,10 +331,53 @@ fn coordinator(args: &Args) -> i32 {
                 continue;
             }
         };
-        if !out.status.success() {
-            exit_inconclusive.push(format!("worker {pname}/{k} ended with {:?} (harness failure, not a verdict)", out.status));
-            continue;
-        }
+        let out = if !out.status.success() {
+            use std::os::unix::process::ExitStatusExt;
+            if out.status.signal().is_none() {
+                exit_inconclusive.push(format!("worker {pname}/{k} ended with {:?} (harness failure, not a verdict)", out.status));
+                continue;
+            }
+            // The worker process was killed by a signal while evaluating some case
+            // in-process. Run its share again with every case in a forked child: if
+            // a case kills its child, that case is the finding; otherwise the death
+            // stays unexplained (inconclusive).
+            eprintln!("worker {pname}/{k} was killed by signal {:?}: re-running its share with one child process per case", out.status.signal());
+            let bin = bins.iter().find(|(p, _)| *p == pname).map(|(_, b)| b.clone()).unwrap_or_else(|| me.clone());
+            let mut c = Command::new(bin);
+            c.arg(&args.id)
+                .arg("--tier")
+                .arg(match args.tier {
+                    Tier::Quick => "quick",
+                    Tier::Thorough => "thorough",
+                })
+                .arg("--seed")
+                .arg(args.seed.to_string())
+                .arg("--worker")
+                .arg(format!("{k}/{workers}"))
+                .arg("--verif")
+                .arg(&args.verif)
+                .arg("--isolate")
+                .stdout(Stdio::piped())
+                .stderr(Stdio::inherit());
+            if let Some(s) = &args.only_sub {
+                c.arg("--sub").arg(s);
+            }
+            match c.output() {
+                Ok(o) if o.status.success() => {
+                    let has_violation = serde_json::from_slice::<Value>(&o.stdout).ok().map_or(false, |d| d["subs"].as_array().map_or(false, |a| a.iter().any(|s| s["violations"].as_array().map_or(false, |v| !v.is_empty()))));
+                    if !has_violation {
+                        exit_inconclusive.push(format!("worker {pname}/{k} was killed by a signal, the isolated re-run found no case that does it (not a verdict)"));
+                    }
+                    o
+                }
+                _ => {
+                    exit_inconclusive.push(format!("worker {pname}/{k} ended with {:?}, and so did its isolated re-run (harness failure, not a verdict)", out.status));
+                    continue;
+                }
+            }
+        } else {
+            out
+        };
         let doc: Value = match serde_json::from_slice(&out.stdout) {
             Ok(v) => v,
             Err(e) => {
